@@ -60,8 +60,42 @@ static void *worker (void *arg) {
 	return NULL;
 }
 
+/* scenario `rr`: a finite set of rounds with a recursive read lock and a writer queued in between
+ *   A: rlock; (W starts: wlock blocks); rlock; runlock; runlock      W: wlock; wunlock
+ * and `share`: reader B asks while reader A holds and a writer is queued; A releases only after B got in.
+ * Both complete when readers are admitted while the lock is in read mode (both implementations as shipped);
+ * they hang when a queued writer blocks further readers. */
+static volatile int w_started, b_in;
+static void *scen_writer (void *a) { (void) a; __atomic_store_n (&w_started, 1, __ATOMIC_SEQ_CST); p_rwlock_writer_lock (lk); p_rwlock_writer_unlock (lk); return NULL; }
+static void *scen_reader_b (void *a) { (void) a; p_rwlock_reader_lock (lk); __atomic_store_n (&b_in, 1, __ATOMIC_SEQ_CST); p_rwlock_reader_unlock (lk); return NULL; }
+static int scenario (const char *name) {
+	pthread_t w, b;
+	signal (SIGALRM, on_alarm);
+	alarm (10);
+	lk = p_rwlock_new ();
+	if (!lk) { puts ("FAIL new"); return 2; }
+	p_rwlock_reader_lock (lk);
+	pthread_create (&w, NULL, scen_writer, NULL);
+	while (!__atomic_load_n (&w_started, __ATOMIC_SEQ_CST)) ;
+	usleep (150000);                               /* let the writer block inside wlock */
+	if (!strcmp (name, "rr")) {
+		p_rwlock_reader_lock (lk);
+		p_rwlock_reader_unlock (lk);
+	} else {
+		pthread_create (&b, NULL, scen_reader_b, NULL);
+		while (!__atomic_load_n (&b_in, __ATOMIC_SEQ_CST)) ;   /* A keeps its read lock until B got in */
+		pthread_join (b, NULL);
+	}
+	p_rwlock_reader_unlock (lk);
+	pthread_join (w, NULL);
+	p_rwlock_free (lk);
+	printf ("ok scenario %s\n", name);
+	return 0;
+}
+
 int main (int argc, char **argv) {
 	int nt = argc > 1 ? atoi (argv[1]) : 8, i;
+	if (argc > 1 && (!strcmp (argv[1], "rr") || !strcmp (argv[1], "share"))) return scenario (argv[1]);
 	unsigned seed = argc > 3 ? (unsigned) atoi (argv[3]) : 1;
 	pthread_t th[64];
 	rounds = argc > 2 ? atoi (argv[2]) : 1000;
